@@ -97,8 +97,10 @@ inductive Prog where
   | emit (e : SExpr) (k : Prog)                   -- write text to the output / an error message
   | ifKeyEq (r₁ r₂ : Nat) (t e : Prog)            -- `==` on identifiers, map lookup by identifier
   /-- iterate a `BTreeMap/BTreeSet<Identifier,…>` built from registers `rs`, emitting each name.
-      `byKey = true`: the code as it stands (key order = interning order).
-      `byKey = false`: insertion order, first occurrence wins (what dart-sass's maps do). -/
+      `byKey = true`: a container ordered by key (`BTreeMap/BTreeSet<Identifier,…>`: key order =
+      interning order) — still what module member maps and `with` configurations are.
+      `byKey = false`: insertion order, first occurrence wins (`IndexMap/IndexSet`: what named
+      arguments and merged member views are since the fixes adef70c / d156cce). -/
   | ordered (byKey : Bool) (rs : List Nat) (k : Prog)
   /-- iterate a `HashSet<Identifier>` built from `rs`: insertion-ordered distinct members,
       rearranged by `π` (a list of positions chosen by the hasher's random state). -/
@@ -208,18 +210,24 @@ def Prog.draws : Prog → Nat
 /-- A whole compilation on a thread whose interner already holds `st`. -/
 def compile (p : Prog) (st : Interner) (supply : List Nat) : Option (List Str) := run p st [] [] supply
 
-/-! ### the two places where grass iterates such containers into its output (as found)
+/-! ### the places where grass iterates such containers into its output
 
   `callNames` are the keyword-argument names in call-site order; `declared` the parameter names of
-  the callee.  Both are interned when the source is parsed, before the call is evaluated. -/
+  the callee.  Both are interned when the source is parsed, before the call is evaluated.
+  For each place the `Bool`/`π` parameter selects the variant: the code as it stands NOW is
+    * `keywordsProg false`, `unknownNames false` — named arguments live in an `IndexMap` (fix adef70c);
+      `true` is the variant found on the pinned tree (`BTreeMap<Identifier,_>`, known finding D13 a1/a2);
+    * `keywordsProg false` over the members in upstream order for a module with `@forward`
+      (`IndexSet`, fix d156cce); `mergedKeysProg π` is the pinned-tree variant (`HashSet`, D13 b);
+    * `moduleMembersProg true`, `configFirst true` — still key-ordered today (D13 a3/a4). -/
 
-/-- `keywords($args)` (builtin/functions/meta.rs:314 → `ArgList::keywords`, a `BTreeMap`). -/
+/-- `keywords($args)` (builtin/functions/meta.rs `keywords` → `ArgList::keywords`). -/
 def keywordsProg (byKey : Bool) (callNames : List Str) : Prog :=
   let n := callNames.length
   callNames.foldr (fun s k => .intern (.lit s) k) (.ordered byKey (List.range n) .halt)
 
-/-- “No argument(s) named …” (ast/args.rs:92-110): the call's names minus the declared ones, collected
-    into a `BTreeSet<Identifier>`.  Registers: declared names first, then the call's names. -/
+/-- “No argument(s) named …” (ast/args.rs `ArgumentDeclaration::verify`): the call's names minus the
+    declared ones.  Registers: declared names first, then the call's names. -/
 def unknownNames (byKey : Bool) (st : Interner) (declared callNames : List Str) : Option (List Str) :=
   let st₁ := internAll st (declared ++ callNames)
   let keyOf := fun s => find? s st₁
@@ -229,11 +237,24 @@ def unknownNames (byKey : Bool) (st : Interner) (declared callNames : List Str) 
     mapOpt (resolve st₁) (if byKey then ascending unk else firstOcc unk)
   | _, _ => none
 
-/-- Names of a module's members as `meta.module-variables` lists them when the module has
-    `@forward`s: `MergedMapView` keeps the union in a `HashSet<Identifier>` (map_view.rs:262-310). -/
+/-- Pinned-tree variant of the member listing of a module with `@forward`s: `MergedMapView` kept
+    the union in a `HashSet<Identifier>` (utils/map_view.rs before d156cce). -/
 def mergedKeysProg (π : List Nat) (names : List Str) : Prog :=
   let n := names.length
   names.foldr (fun s k => .intern (.lit s) k) (.hashed π (List.range n) .halt)
+
+/-- `meta.module-variables()/module-functions()` of one module's own members (`declared` in source
+    order): `BaseMapView` over `BTreeMap<Identifier, _>` (utils/map_view.rs:51, builtin/modules/mod.rs
+    `Module::new`).  `byKey = true` is the code as it stands. -/
+def moduleMembersProg (byKey : Bool) (declared : List Str) : Prog := keywordsProg byKey declared
+
+/-- Which of several non-configurable variables of `@use … with (…)` the error reports:
+    `Configuration::first` (ast/stmt.rs `first`, evaluate/visitor.rs `assert_configuration_is_empty`)
+    takes the first key of a `BTreeMap<Identifier, _>`.  `byKey = true` is the code as it stands. -/
+def configFirst (byKey : Bool) (st : Interner) (withNames : List Str) : Option Str :=
+  match compile (keywordsProg byKey withNames) st [] with
+  | some (n :: _) => some n
+  | _ => none
 
 /-! ### `unique-id()` (builtin/functions/string.rs:240) -/
 
@@ -302,7 +323,15 @@ def handle : List String → String
       | some out => "ok " ++ tokOfStrs out
       | none => "stuck"
     | _, _, _, _ => "bad-op"
-  -- merged <π> <history> <names>: one possible listing of a forwarded module's members
+  -- cfgfirst <byKey> <history> <names>: the variable a `with` error names
+  | ["cfgfirst", bk, hist, names] =>
+    match parseBool? bk, strsOfTok hist, strsOfTok names with
+    | some bk, some hist, some names =>
+      match configFirst bk (internAll [] hist) names with
+      | some n => "ok " ++ hexEncode n
+      | none => "stuck"
+    | _, _, _ => "bad-op"
+  -- merged <π> <history> <names>: one possible listing of a forwarded module's members (pinned-tree variant)
   | ["merged", pi, hist, names] =>
     match natsOfTok pi, strsOfTok hist, strsOfTok names with
     | some pi, some hist, some names =>
